@@ -684,7 +684,38 @@ func c06Reverse(r *core.Report) {
 					}
 				}
 			}
-			_ = info
+			// the serialising code sits in a helper that receives the batch as a parameter (s.putRecord(.., val)): the
+			// reversal is looked for at the helper's call sites, on the argument
+			if rid := rootIdent(cs.Call.Args[0]); !ok && rid != nil && fn.Lit == nil {
+				pi := -1
+				for i := 0; fn.ParamObj(i) != nil; i++ {
+					if types.Object(fn.ParamObj(i)) == info.Uses[rid] {
+						pi = i
+					}
+				}
+				suffix := strings.TrimPrefix(arg, rid.Name)
+				nSites, nOK := 0, 0
+				for _, caller := range pkgScope(p, f, 2) {
+					for _, c3 := range p.Calls(caller) {
+						if pi < 0 || c3.Callee == nil || p.ByObj[c3.Callee.Origin()] != fn || pi >= len(c3.Call.Args) {
+							continue
+						}
+						nSites++
+						want := core.ExprStr(c3.Call.Args[pi]) + suffix
+						gx := p.Graph(caller)
+						un := gx.NodeOf(c3.Call.Pos())
+						for _, c2 := range p.Calls(caller) {
+							if strings.HasPrefix(c2.Name, "slices.Reverse") && len(c2.Call.Args) == 1 && core.ExprStr(c2.Call.Args[0]) == want {
+								if rn := gx.NodeOf(c2.Call.Pos()); rn != nil && un != nil && gx.Dominates(rn, un) {
+									nOK++
+									break
+								}
+							}
+						}
+					}
+				}
+				ok = nSites > 0 && nOK == nSites
+			}
 			r.Check(ok, rule, f.Key+"#reverse-before-serialise", pos(r, cs.Call), "the batch is reversed (newest first) before being serialised",
 				"the batch is serialised in push order: entries inside a record come out oldest first")
 		}
